@@ -55,6 +55,13 @@ reference model was written against) so that the Coq development still builds.
   n, v = InstancePropertyHelper.make_property(v, ..)     v is not None afterwards (a property / reify object)
   v = <and/or/not over atoms>                  substitution
   @action_method, @viewdefaults                transparent for emission (both stay shape-pinned)
+  self.<h>(..) / config.<h>(..) with <h> in CONFIG_HELPERS (introspectable, maybe_dotted, object_description,
+     get_routes_mapper, _get_static_info, _make_spec, _derive_view)      a value; declares / executes no action, leaves the
+                   configurator unchanged.  ANY OTHER method of the configurator called at statement level (commit,
+                   include, begin, end, scan, ...) and any store / del of an attribute of self / config: Problem -- such a
+                   statement must never fall under the INERT rule
+  what the INERT statements compute (patterns, specs, the values the callables capture) is not translated: it is pinned per
+                   directive as its statement-level residue (c08facts.residue_shapes, pins_residue.json)
   (W) see the table in the second half of this file (section WORLD FUNCTIONS)
 """
 import ast
@@ -179,6 +186,12 @@ ATOMS = {
 }
 PHASES = {'PHASE0_CONFIG': 'phase0', 'PHASE1_CONFIG': 'phase1', 'PHASE2_CONFIG': 'phase2', 'PHASE3_CONFIG': 'phase3'}
 RECEIVERS = ('self', 'config', 'info')
+# helpers of the configurator that a directive may call while it is being declared: they return a value and neither
+# declare nor execute actions nor change the configurator (get_routes_mapper / _get_static_info create the container
+# on first use: the `decl` column of the declared table, watched by the monitor; _derive_view reads the registry as
+# committed so far: add_notfound_view(append_slash=...), see NOTES.md)
+CONFIG_HELPERS = ('introspectable', 'maybe_dotted', 'object_description', 'get_routes_mapper', '_get_static_info',
+                  '_make_spec', '_derive_view')
 
 
 def is_action_call(c):
@@ -198,6 +211,24 @@ class Emit:
                 for c in ast.walk(d):
                     if is_action_call(c) or self.directive_of(c):
                         raise Problem('%s: a nested function declares actions (line %d)' % (meth, c.lineno))
+        # fail closed on configurator STATE: the only methods of the configurator a directive may call at statement level
+        # are the action call, translated directives and the helpers of CONFIG_HELPERS (table line: they neither declare
+        # nor execute actions nor change the configurator); anything else (commit, include, begin, end, scan, ...) and
+        # any store to an attribute of the configurator is outside the subset -- such a statement would otherwise be INERT
+        for n in self.walk_own(node):
+            if isinstance(n, ast.Call) and isinstance(n.func, ast.Attribute) and isinstance(n.func.value, ast.Name) \
+                    and n.func.value.id in ('self', 'config'):
+                if not (n.func.attr == 'action' or n.func.attr in CONFIG_HELPERS or self.directive_of(n)):
+                    raise Problem('%s: call of %s.%s() at statement level is not in the primitive table (line %d)'
+                                  % (meth, n.func.value.id, n.func.attr, n.lineno))
+            if isinstance(n, (ast.Assign, ast.AugAssign, ast.AnnAssign, ast.Delete)):
+                tg = n.targets if isinstance(n, (ast.Assign, ast.Delete)) else [n.target]
+                for t in tg:
+                    for x in ast.walk(t):
+                        if isinstance(x, ast.Attribute) and isinstance(x.value, ast.Name) and x.value.id in ('self', 'config') \
+                                and isinstance(x.ctx, (ast.Store, ast.Del)):
+                            raise Problem('%s: store to %s.%s at statement level (line %d)'
+                                          % (meth, x.value.id, x.attr, n.lineno))
         self.relevant = self.relevant_names()
 
     # ---- helpers
